@@ -95,7 +95,7 @@ def huge_bound_cases():
                     continue
                 docs.append({"doc": {"v": w(bad)}, "cls": "type", "path": ("v",), "expect": "REJ"})
             for ms in (False, True):
-                out.append(Case("c03hb%d" % n, root, [dict(d) for d in docs], fam="huge-bound/%s/%s" % (pos, "min-sized" if ms else "plain"), minsized=ms, no_model=True))
+                out.append(Case("c03hb%d" % n, root, [dict(d) for d in docs], fam="huge-bound/%s/%s" % (pos, "min-sized" if ms else "plain"), minsized=ms))
                 n += 1
     return out
 
@@ -128,7 +128,7 @@ def nullable_composites():
                     for k in keys:
                         for v in bad[k]:
                             docs.append({"doc": {"shipping": w(dict({x: good[x] for x in keys}, **{k: v}))}, "cls": "type", "path": ("shipping", k), "expect": "REJ"})
-                    out.append(Case("c03nc%d" % n, root, docs, fam="nullable-composite/%s/%s/%d/%s" % (comb, json.dumps(tl), len(brs), place), no_model=True))
+                    out.append(Case("c03nc%d" % n, root, docs, fam="nullable-composite/%s/%s/%d/%s" % (comb, json.dumps(tl), len(brs), place)))
                     n += 1
     return out
 
@@ -169,6 +169,8 @@ def run(ctx):
                     c.fam, json.dumps(d["doc"]), "valid" if d["expect"] == "ACC" else "invalid (a value of another JSON type at %s)" % "/".join(d["path"]), o.get("v")))
                 nnc += 1
                 break
+    from vlib.valuecheck import report_tie
+    report_tie(ctx, nc, "JSON types")
     from vlib.valuecheck import replay_findings
     from vlib import regress
     regress.search(ctx, {"C03"})          # the shape-agnostic search step (DESIGN.md 12.8)
